@@ -17,6 +17,13 @@ Reads
       follow-up the provider controls — must never be carved out.
   crates/rip-provider-openresponses/src/request/create_response.rs : CreateResponsePayload::new fills `errors`
       from validate_create_response_body(&body) of the very body it keeps; errors() returns them.
+  crates/ripd/src/session.rs (OpenResponsesSsePipe) : push_sse_str and finish both run, after truncate_after_done,
+      ONE loop over the whole of `parsed` that shows each event to `collector.observe` and only then maps it to
+      frames (directly or through one shared helper); there is no other `self.mapper.map(` site; push_bytes goes
+      through push_sse_str; stream_openresponses_request builds the reading pipe with Some(req.collector) and calls
+      finish() when the body ended without [DONE]; the loop creates one fresh collector per request and drains it
+      after the stream.  Emitted as gen_pipe_feeds : obs_flags with the obligation gen_pipe_feeds_collector_ok
+      (= OBS_BOTH, the value the theorems of Props/C16.v "from the body bytes" are proved for).
 Emits coq/Gen/ToolLoopGen.v: gen_validator_carved : list string, gen_ok_validator : bool and the obligation
 gen_validator_ok (every carved field is one of tools / tool_choice and every construct was found), and gen_max_tool_calls : N, gen_ok_tool_loop : bool, gen_fixed : bool and the obligation
 gen_tool_loop_ok (the model's MAX_TOOL_CALLS and FIXED are the generated values and every construct was found).
@@ -35,6 +42,43 @@ def between(src, start, end):
         return None
     j = src.find(end, i)
     return src[i:j] if j > i else None
+
+
+def block_at(src, i):
+    """the text of the brace block that opens at the first `{` at or after position i (braces balanced)"""
+    j = src.find("{", i)
+    if j < 0:
+        return None
+    depth = 0
+    for k in range(j, len(src)):
+        if src[k] == "{":
+            depth += 1
+        elif src[k] == "}":
+            depth -= 1
+            if depth == 0:
+                return src[j:k + 1]
+    return None
+
+
+def fn_body(src, name):
+    m = re.search(r"\bfn\s+%s\s*\(" % re.escape(name), src)
+    return block_at(src, m.end()) if m else None
+
+
+def event_loops(body):
+    """[(loop block, iterated expression)] for every `for event in <expr> {` of a function body"""
+    out = []
+    for m in re.finditer(r"for\s+event\s+in\s+([^{]+?)\s*\{", body):
+        out.append((block_at(body, m.end() - 1) or "", m.group(1).strip()))
+    return out
+
+
+def loop_feeds_then_maps(block):
+    """the loop body shows `event` to the collector and only then maps it to frames"""
+    i_obs = block.find("collector.observe(event)")
+    i_map = block.find("self.mapper.map(event)")
+    guarded = re.search(r"if\s+let\s+Some\(collector\)\s*=\s*self\.collector\.as_deref_mut\(\)\s*\{\s*collector\.observe\(event\);\s*\}", block) is not None
+    return 0 <= i_obs < i_map and guarded and "continue" not in block and "break" not in block and "return" not in block
 
 
 def main():
@@ -105,6 +149,61 @@ def main():
     need(st.find("req.payload.body()") >= 0 and re.search(r"\.json\s*\(\s*req\.payload\.body\(\)\s*\)", st) is not None,
          "the body that is sent is not req.payload.body()")
     need(s16 == s19, "fix S16 present = %s but fix S19 present = %s (the model has one FIXED flag)" % (s16, s19))
+
+    # ---- OpenResponsesSsePipe: the two places that turn parsed events into frames feed the collector first
+    pnotes, pok = [], True
+
+    def pneed(cond, what):
+        nonlocal pok
+        if not cond:
+            pok = False
+            pnotes.append(what)
+
+    pipe = between(se, "impl<'a> OpenResponsesSsePipe<'a> {", "\nfn truncate_after_done")
+    pneed(pipe is not None, "impl OpenResponsesSsePipe not found")
+    pipe = pipe or ""
+    feeds = {}
+    fed_loops = 0
+    for fname, source in (("push_sse_str", r"self\.decoder\.push\(chunk\)"), ("finish", r"self\.decoder\.finish\(\)")):
+        fb = fn_body(pipe, fname)
+        pneed(fb is not None, "OpenResponsesSsePipe::%s not found" % fname)
+        fb = fb or ""
+        pneed(re.search(r"let\s+mut\s+parsed\s*=\s*%s\s*;" % source, fb) is not None, "%s: `let mut parsed = %s;` not found" % (fname, source))
+        i_cut = fb.find("truncate_after_done(&mut parsed)")
+        pneed(i_cut >= 0, "%s: truncate_after_done(&mut parsed) not found" % fname)
+        pneed(len(re.findall(r"\bparsed\s*=[^=]", fb)) == 1 and "parsed." not in fb.replace("parsed.is_empty()", "").replace("parsed\n            .iter()", "").replace("parsed.iter()", ""),
+              "%s: `parsed` is edited after truncate_after_done" % fname)
+        loops = [(blk, it) for (blk, it) in event_loops(fb) if "self.mapper.map(event)" in blk or "collector.observe(event)" in blk]
+        ok_here = False
+        if loops:
+            # every loop that maps must feed first, over the whole of `parsed`, after the cut
+            ok_here = all(it == "&parsed" and loop_feeds_then_maps(blk) for (blk, it) in loops) and all(fb.find(blk) > i_cut >= 0 for (blk, _) in loops) and len(loops) == 1
+            fed_loops += sum(1 for (blk, _) in loops if loop_feeds_then_maps(blk))
+        else:
+            # one level of helper: `self.<helper>(&parsed)` whose only loop feeds and maps
+            mh = re.search(r"self\.(\w+)\(&parsed\)", fb)
+            hb = fn_body(pipe, mh.group(1)) if mh else None
+            if hb is not None and fb.find(mh.group(0)) > i_cut >= 0:
+                hl = [(blk, it) for (blk, it) in event_loops(hb) if "self.mapper.map(event)" in blk or "collector.observe(event)" in blk]
+                ok_here = len(hl) == 1 and hl[0][1] in ("parsed", "parsed.iter()") and loop_feeds_then_maps(hl[0][0])
+        feeds[fname] = ok_here
+    # no mapping site outside the loops that feed the collector (a helper shared by both counts once)
+    n_map = len(re.findall(r"self\.mapper\.map\(", pipe))
+    n_fed = sum(1 for (blk, _) in event_loops(pipe) if loop_feeds_then_maps(blk))
+    pneed(n_map == n_fed, "%d `self.mapper.map(` sites but %d loops that show the event to the collector first" % (n_map, n_fed))
+    pb = fn_body(pipe, "push_bytes") or ""
+    pneed(pb != "" and "self.decoder" not in pb and "self.mapper" not in pb and len(re.findall(r"self\.push_sse_str\(", pb)) >= 1, "push_bytes does not go through push_sse_str only")
+    stq = between(se, "async fn stream_openresponses_request", "\nfn now_ms") or ""
+    pneed(re.search(r"let\s+mut\s+pipe\s*=\s*OpenResponsesSsePipe::new\(\s*req\.session_id,\s*req\.seq,\s*req\.sink,\s*Some\(req\.collector\),\s*validation,?\s*\);\s*let\s+mut\s+saw_done\s*=\s*pipe\.push_bytes\(", stq) is not None,
+          "the pipe that reads the body is not built with Some(req.collector)")
+    pneed(re.search(r"if\s+!saw_done\s*\{\s*let\s+_\s*=\s*pipe\.finish\(\)\.await;\s*\}\s*Ok\(\(\)\)", stq) is not None, "`if !saw_done { pipe.finish() }` before Ok(()) not found")
+    i_lp = loop.find("loop {")
+    i_newc = loop.find("let mut collector = ToolCallCollector::default();")
+    i_strm = loop.find("stream_openresponses_request(")
+    i_drain = loop.find("collector.drain_function_calls()")
+    pneed(0 <= i_lp < i_newc < i_strm < i_drain and loop.count("ToolCallCollector::default()") == 1 and re.search(r"collector:\s*&mut\s+collector", loop) is not None,
+          "the loop does not create a fresh collector per request, hand it to the stream and drain it afterwards")
+    notes.extend(pnotes)
 
     # ---- the request-body validator (the `valid` of the model): whole body against the schema
     vnotes, vok = [], True
@@ -251,11 +350,16 @@ def main():
         f.write("Definition gen_pattern_class (c : N) : bool :=\n  %s.\n" % (" || ".join("((%d <=? c) && (c <=? %d))" % r for r in ranges) or "false"))
         f.write("Lemma gen_schema_limits_ok :\n  (gen_call_id_min =? CALL_ID_MIN) && (gen_call_id_max =? CALL_ID_MAX) && (gen_name_min =? NAME_MIN) && (gen_name_max =? NAME_MAX)\n  && (gen_text_max =? TEXT_MAX) && gen_pattern_understood && (1 <=? gen_name_min)\n  && forallb (fun k => Bool.eqb (name_char_ok (N.of_nat k)) (gen_pattern_class (N.of_nat k))) (seq 0 1200)\n  && forallb (fun r => role_ok (lit r)) gen_roles && (length gen_roles =? 4)%nat\n  && negb (role_ok (lit \"tool\"%string)) = true.\n")
         f.write("Proof. vm_compute. reflexivity. Qed.\n")
+        f.write("(* OpenResponsesSsePipe: push_sse_str / finish show every parsed event to collector.observe before mapping it to frames *)\n")
+        f.write("Definition gen_pipe_feeds : obs_flags := {| ob_push := %s; ob_finish := %s |}.\n" % ("true" if feeds.get("push_sse_str") else "false", "true" if feeds.get("finish") else "false"))
+        f.write("Definition gen_ok_pipe : bool := %s.\n" % ("true" if pok else "false"))
+        f.write("Lemma gen_pipe_feeds_collector_ok : gen_ok_pipe && obs_flags_eqb gen_pipe_feeds OBS_BOTH = true.\n")
+        f.write("Proof. vm_compute. reflexivity. Qed.\n")
         f.write("Lemma gen_validator_ok :\n  gen_ok_validator && forallb (fun f => existsb (String.eqb f) [\"tools\"%string; \"tool_choice\"%string]) gen_validator_carved = true.\n")
         f.write("Proof. vm_compute. reflexivity. Qed.\n")
     for n in notes:
         print("note:", n)
-    print("tool_loop: max=%s fixed=%s ok=%s validator_carved=%s validator_ok=%s" % (mx, s16 and s19, ok, carved, vok))
+    print("tool_loop: max=%s fixed=%s ok=%s validator_carved=%s validator_ok=%s pipe_feeds=%s pipe_ok=%s" % (mx, s16 and s19, ok, carved, vok, feeds, pok))
     return 0
 
 
